@@ -17,7 +17,7 @@ Identities are small naturals.  `Content` abstracts the *bytes* of a record valu
 the harness produced byte-identical values (the code keys versions by `XorName::from_content`; injectivity of
 that hash on the values of one run is an assumption).
 
-The state carries three history variables that never influence an output (`asked`, `returned`, `delivered`);
+The state carries history variables that never influence a delivery (`asked`, `returned`, `keys`, `delivered`);
 they exist so that the theorems can speak about the past.
 -/
 namespace SafeNet.Quorum
@@ -94,13 +94,18 @@ structure State where
   asked : List (Nat × Nat × Cfg) := []
   /-- history: replies accepted into a pending query as (qid, peer, content) -/
   returned : List (Nat × Nat × Content) := []
+  /-- history: the same replies with the key their record carried, as (qid, peer, content, record key).
+  The handlers never compare that key with the key of the pending query. -/
+  keys : List (Nat × Nat × Content × Nat) := []
   /-- history: everything put on (or dropped from) a caller's channel -/
   delivered : List (Nat × Outcome) := []
   deriving Repr
 
 inductive Op where
   | get (key caller : Nat) (cfg : Cfg)
-  | found (qid peer : Nat) (c : Content)
+  /-- `fk = some k`: the record of the reply carries key `k` (a foreign key when `k` is not the query's key);
+  `none`: it carries the key of the query -/
+  | found (qid peer : Nat) (c : Content) (fk : Option Nat)
   | finished (qid : Nat)
   | notFound (qid : Nat)
   | quorumFailed (qid : Nat)
@@ -149,6 +154,13 @@ def targetMatch (cfg : Cfg) (c : Content) : Bool :=
 /-- `send_record_after_checking_target`. -/
 def sendChecked (cfg : Cfg) (c : Content) : Outcome :=
   if targetChecked then (if targetMatch cfg c then .ok c else .mismatch c) else .ok c
+
+/-- `send_record_after_checking_target` for a reply whose record key is / is not the key of the target record
+(the harness builds targets with the requested key): the plain comparison `target_record == record` is on whole
+records, so a foreign key never equals a plain target; the `is_register` comparison ignores the key. -/
+def sendCheckedK (cfg : Cfg) (c : Content) (keyOk : Bool) : Outcome :=
+  if keyOk || cfg.isReg || cfg.target.isNone then sendChecked cfg c
+  else if targetChecked then .mismatch c else .ok c
 
 /-- Insert the responder of version `c`; returns the new map and `responded_peers`. -/
 def addPeer (rs : List (Content × List Nat)) (c : Content) (p : Nat) : List (Content × List Nat) × Nat :=
@@ -217,8 +229,8 @@ def timeoutOutcome (q : Query) : Outcome :=
 
 /-- Outcome of `accumulate_get_record_found` once a version reached the quorum; `rs` is the updated map and
 `c` the record that just arrived. -/
-def completedOutcome (cfg : Cfg) (rs : List (Content × List Nat)) (c : Content) : Outcome :=
-  if rs.length == 1 then sendChecked cfg c
+def completedOutcome (cfg : Cfg) (rs : List (Content × List Nat)) (c : Content) (keyOk : Bool) : Outcome :=
+  if rs.length == 1 then sendCheckedK cfg c keyOk
   else
     let u := txUnion (rs.map (·.1))
     if u.isEmpty then .split rs else .ok (.txs u)
@@ -236,14 +248,14 @@ def step (s : State) : Op → State × Out
         ({ s1 with pending := s.pending ++ [{ qid := s.nextQid, key := key, senders := [caller], results := [], cfg := cfg }],
                    nextQid := s.nextQid + 1 },
          { info := some (false, s.nextQid) })
-  | .found qid p c =>
+  | .found qid p c fk =>
     match findQ qid s.pending with
     | none => (s, { ret := .dropped })
     | some q =>
       let r := addPeer q.results c p
-      let s1 := { s with returned := s.returned ++ [(qid, p, c)] }
+      let s1 := { s with returned := s.returned ++ [(qid, p, c)], keys := s.keys ++ [(qid, p, c, fk.getD q.key)] }
       if reached r.2 (quorumOf q.cfg) then
-        terminate s1 q (completedOutcome q.cfg r.1 c)
+        terminate s1 q (completedOutcome q.cfg r.1 c (fk.getD q.key == q.key))
       else
         ({ s1 with pending := s.pending.map (fun x => if x.qid == qid then { x with results := r.1 } else x) }, {})
   | .finished qid =>
@@ -265,6 +277,21 @@ def step (s : State) : Op → State × Out
   | .hangup caller =>
     if s.nextCaller ≤ caller then (s, { ret := .bad })
     else ({ s with hung := caller :: s.hung }, {})
+
+/-- key of the record stored for version `c` of query `qid`: the key carried by the first reply with that content
+(`result_map.insert` happens only for a new content hash) -/
+def storedKey (keys : List (Nat × Nat × Content × Nat)) (qid : Nat) (c : Content) (dflt : Nat) : Nat :=
+  match keys.find? (fun r => r.1 == qid && r.2.2.1 == c) with
+  | some r => r.2.2.2
+  | none => dflt
+
+/-- key of the record a step hands to the callers of `q` together with a record-carrying outcome: the reply that
+completed the quorum hands over *its* record (`peer_record.record`, also for the transaction merge), a finished
+query the stored one -/
+def deliveredKey (s : State) (q : Query) (op : Op) (c : Content) : Nat :=
+  match op with
+  | .found _ _ _ fk => fk.getD q.key
+  | _ => storedKey s.keys q.qid c q.key
 
 def run (ops : List Op) : State := ops.foldl (fun s op => (step s op).1) {}
 
